@@ -316,14 +316,24 @@ example :
     `xmask add rem (maskOf e)`, keeps the values of the components that stay (overwritten by the last
     write of `vals`), reads the written value (or zero) in the added ones; every other ID is
     `SameEnt`.
-  * the batch is `Lock`, table selection, `findLoop` (look up / create the destination of every
-    non-empty selected table), the move loop (`exchangeTable` per table, then the callback on the
-    moved rows), `Unlock` — `exchangeBatch_eq`.
+  * the batch is table selection, `findLoop` (look up / create the destination of every
+    non-empty selected table), `Lock`, the move loop (`exchangeTable` per table, then the callback
+    on the moved rows), `Unlock` — `exchangeBatch_pure_planFirst` (since the repair of defect D27 the
+    lock is taken only after `findLoop`, so that a panic of `findLoop` — the precondition fails on
+    some selected table — leaves the lock state as it was: `exchangeBatch_lookup_panic`).
+    Selection and `findLoop` neither read nor write the lock, hence the batch is ALSO `Lock`, table
+    selection, `findLoop`, move loop, `Unlock` (the order before the repair) whenever `findLoop`
+    succeeds — `exchangeBatch_pure`, the form the specifications below are proved from.
 -/
 
 /-- `exchangeTable` is a pure function (`exchangeTableW`), and so is the batch -/
 theorem exchangeTable_pure : type_of% @exchangeTable_eq := @exchangeTable_eq
+theorem exchangeBatch_pure_planFirst : type_of% @exchangeBatch_eq_planFirst := @exchangeBatch_eq_planFirst
 theorem exchangeBatch_pure : type_of% @exchangeBatch_eq := @exchangeBatch_eq
+/-- a panic of the lookup loop is the batch's panic, with the same state: the lock has not been
+    taken -/
+theorem exchangeBatch_lookup_panic : type_of% @exchangeBatch_findLoop_panic :=
+  @exchangeBatch_findLoop_panic
 
 /-- **one table move**: all rows of `oldT` are appended to `newT` in order; every moved entity has
     the destination's components, keeps the values of the shared ones and reads zero in the new
@@ -462,11 +472,47 @@ example :
   decide +kernel
 
 /-- the precondition matters: if one selected table already has the added component the batch
-    panics (`alreadyHas`) — with the world LOCKED and the destination tables of the earlier source
-    tables already created (Go's `panic` unwinds past the deferred-less `unlock`) -/
+    panics (`alreadyHas`).  Since the repair of defect D27 (`exchangeBatch` takes the world lock only
+    AFTER the lookup loop, immediately before the first callback round) the call is rejected with
+    the lock state exactly as before — the world is NOT left locked (before the repair the panic
+    unwound past the `unlock`, which is not deferred, and every later structural call panicked
+    `locked`) — and no entity is changed; the next structural operation is accepted.  General
+    statement: `Ark.Props.C07Batch.exchangeBatch_panic_unlocked`. -/
 example :
     okVal (opExchangeBatch noProbe .unsafe_ fo0 [] [1] [] [] none exW) = none ∧
-    (opExchangeBatch noProbe .unsafe_ fo0 [] [1] [] [] none exW).state.isLocked = true := by
+    exW.isLocked = false ∧
+    (opExchangeBatch noProbe .unsafe_ fo0 [] [1] [] [] none exW).state.isLocked = false ∧
+    (opExchangeBatch noProbe .unsafe_ fo0 [] [1] [] [] none exW).state.locks = exW.locks ∧
+    (opExchangeBatch noProbe .unsafe_ fo0 [] [1] [] [] none exW).state.entities = exW.entities ∧
+    (List.range 7).map (fun i =>
+      compsOf (opExchangeBatch noProbe .unsafe_ fo0 [] [1] [] [] none exW).state i) =
+      (List.range 7).map (fun i => compsOf exW i) ∧
+    okVal (opNewEntity0 noProbe
+      (opExchangeBatch noProbe .unsafe_ fo0 [] [1] [] [] none exW).state) = some ⟨6, 0⟩ := by
+  decide +kernel
+
+/-- what a rejected batch does leave behind: the destination tables the lookup loop created for
+    the EARLIER source tables before it panicked.  "All entities: remove 0" in `exW` — the table of
+    `{0}` goes to the (existing) table of `{}`, for the table of `{0, 1}` archetype and table of
+    `{1}` are created, the table of `{2}` fails the precondition (`missing`): one archetype and
+    one table more than before; lock state, entity index, components and values of every entity
+    as before. -/
+example :
+    (match opExchangeBatch noProbe .unsafe_ { filter := {} } [] [] [0] [] none exW with
+      | .ok _ _ => none | .panic k _ => some k) = some PanicKind.missing ∧
+    (opExchangeBatch noProbe .unsafe_ { filter := {} } [] [] [0] [] none exW).state.isLocked = false ∧
+    (opExchangeBatch noProbe .unsafe_ { filter := {} } [] [] [0] [] none exW).state.locks = exW.locks ∧
+    exW.tables.length = 4 ∧ exW.archetypes.length = 4 ∧
+    (opExchangeBatch noProbe .unsafe_ { filter := {} } [] [] [0] [] none exW).state.tables.length = 5 ∧
+    (opExchangeBatch noProbe .unsafe_ { filter := {} } [] [] [0] [] none exW).state.archetypes.length = 5 ∧
+    (opExchangeBatch noProbe .unsafe_ { filter := {} } [] [] [0] [] none exW).state.entities =
+      exW.entities ∧
+    (List.range 7).map (fun i =>
+      compsOf (opExchangeBatch noProbe .unsafe_ { filter := {} } [] [] [0] [] none exW).state i) =
+      (List.range 7).map (fun i => compsOf exW i) ∧
+    (List.range 7).map (fun i => (List.range 3).map fun c =>
+      valOf (opExchangeBatch noProbe .unsafe_ { filter := {} } [] [] [0] [] none exW).state i c) =
+      (List.range 7).map (fun i => (List.range 3).map fun c => valOf exW i c) := by
   decide +kernel
 
 end Ark.Props.C06World
